@@ -331,6 +331,23 @@ def check_debug(ctx):
         if g.cls is enf0.cls and g is not enf0]
     enf, dbg = enf0, None
     for g in cands:
+        body = list(g.node.body)
+        for i, n in enumerate(body):
+            # guard-clause spelling: `if not LOG.isEnabledFor(..): return`
+            # makes the rest of the function the debug-only block
+            if isinstance(n, ast.If) and not n.orelse and len(
+                    n.body) == 1 and isinstance(n.body[0], ast.Return) and \
+                    isinstance(n.test, ast.UnaryOp) and isinstance(
+                        n.test.op, ast.Not) and any(
+                            isinstance(c, ast.Call) and method_call(
+                                c, 'isEnabledFor')
+                            for c in ast.walk(n.test)) and dbg is None \
+                    and g is not enf0:
+                fake = ast.If(test=n.test.operand, body=body[i + 1:],
+                              orelse=[])
+                ast.copy_location(fake, n)
+                fake.end_lineno = g.node.end_lineno
+                enf, dbg = g, fake
         for n in walk_no_nested(g.node):
             if isinstance(n, ast.If) and any(
                     isinstance(c, ast.Call) and method_call(c,
@@ -400,7 +417,11 @@ def check_authorize(ctx):
            'authorize has the parameters and defaults of enforce'
            if sa == se else 'authorize\'s signature (%s) differs from '
            'enforce\'s (%s)' % (U(auth.node.args), U(enf.node.args)))
-    t = Table(prog, auth)
+    from ..dte import inline_helpers
+    t = Table(prog, auth, inline=inline_helpers(
+        prog, modules={POLICY}, exclude={enf.qual,
+                                         POLICY + '.Enforcer.load_rules'}),
+        max_depth=4)
     n_reg = n_fw = 0
     for p in t.paths:
         reg = [c for c in p.conds if c.kind == 'test' and isinstance(
